@@ -159,7 +159,7 @@ def eqChar : Option Bool → String
 
 open Deep in
 /-- the value with the reference count of every block: `L#2[i1,s#1:6162]` -/
-def renderRefs : Nat → Deep.DState → Cell → String
+def renderRefs : Nat → Deep.Heap → Cell → String
   | 0, _, _ => "!depth"
   | f + 1, s, c =>
     match c with
@@ -177,7 +177,7 @@ def renderRefs : Nat → Deep.DState → Cell → String
 
 def obs (s : Deep.DState) : String :=
   let vals := (List.range nvars).map s.read
-  " | ".intercalate ((List.range nvars).map (fun v => obsVar (s.read v) ++ " " ++ renderRefs (s.next + 1) s (s.vars v))) ++ " # " ++
+  " | ".intercalate ((List.range nvars).map (fun v => obsVar (s.read v) ++ " " ++ renderRefs (s.h.next + 1) s.h (s.vars v))) ++ " # " ++
     String.join (vals.map (fun a => String.join (vals.map (fun b => eqChar (veq ieee a b)))))
 
 def stepLine (s : Deep.DState) (ws : List String) : Deep.DState × String :=
